@@ -41,8 +41,8 @@ PROGRESS_KEYS = ('cycles', 'amp')
 def gen_plan(wl, fr, idx):
     band = gen_band(wl)
     R = wl.choices((1, 2, 3, 4, 5, 6), weights=(8, 17, 25, 20, 15, 15))[0]
-    if thorough() and wl.random() < 0.3:
-        R = wl.randint(7, 10)
+    if wl.random() < (0.3 if thorough() else 0.12):      # many rows per worker
+        R = wl.randint(7, 16 if thorough() else 12)
     rows = [gen_signal_spec(wl, band, i) for i in range(R)]
     plan = {'band': band, 'rows': rows}
     entry = 'object' if wl.random() < 0.3 else 'function'
